@@ -203,7 +203,7 @@ func (a *Action) Exec(bs map[string]interface{}) ExecResult {
 			return ExecResult{Outcome: "fail"}
 		case "retnull":
 			return ExecResult{Outcome: "null", Emitted: out}
-		case "retbad", "retarr", "retfn", "retdate", "retgetter", "retcyclic", "throwbare", "throwhostile", "throwplain", "throwarr":
+		case "retbad", "retarr", "retfn", "retdate", "retgetter", "retcyclic", "throwbare", "throwhostile", "throwplain", "throwarr", "retzero", "retfalse", "retempty":
 			return ExecResult{Outcome: "bad"}
 		case "tick":
 		}
